@@ -186,6 +186,9 @@ func confirmDeath(id string, seed int64, bin, scratch string, r workerResult) st
 }
 
 func writeEvidence(id, tier string, seed int64, agg *WorkerStats, distinct int, wall, buildS float64, violations, workers int, enumStride int) {
+	if os.Getenv("VERIF_RUNS") != "" {
+		return // development override of the run count: do not touch the evidence file
+	}
 	meta := checkMeta[id]
 	if meta.Rule == "" {
 		meta.Rule = agg.Rule
